@@ -432,4 +432,193 @@ Proof.
         rewrite (E_even He (length d1)) by lia. reflexivity.
       * exfalso. apply (esc_not_delim He). rewrite <- Hxe. exact Hx.
 Qed.
+
+(* ---- the four levels -------------------------------------------------------------------------------- *)
+Let seg := c_seg c.
+Let elem := c_elem c.
+Let rep := optb (c_rep c).
+Let comp := optb (c_comp c).
+
+Definition Pc (x : bytes) : Prop := In x (delims c).
+Definition Pr (x : bytes) : Prop := In x (delims c) /\ x <> comp.
+Definition Pe (x : bytes) : Prop := In x (delims c) /\ x <> comp /\ x <> rep.
+Definition Ps (x : bytes) : Prop := x = seg.
+
+Lemma is_empty_true x : is_empty x = true <-> x = [].
+Proof. destruct x; simpl; split; congruence. Qed.
+Lemma is_empty_false x : is_empty x = false <-> x <> [].
+Proof. destruct x; simpl; split; congruence. Qed.
+
+Lemma NoDup_heads l : (forall x, In x l -> x <> []) -> NoDup (heads l) -> NoDup l.
+Proof.
+  induction l as [|x l IH]; intros Hne Hnd; [constructor|].
+  destruct x as [|x0 xt]; [exfalso; apply (Hne []); [left|]; reflexivity|].
+  simpl in Hnd. inversion Hnd as [|? ? Hni Hnd']; subst. constructor.
+  - intro Hin. apply Hni. unfold heads. apply in_flat_map. exists (x0 :: xt). split; [exact Hin|left; reflexivity].
+  - apply IH; [intros y Hy; apply Hne; right; exact Hy|exact Hnd'].
+Qed.
+
+Lemma delims_nodup : NoDup (delims c).
+Proof.
+  apply NoDup_heads.
+  - intros x Hx. apply sp_nonempty. apply delim_sp. exact Hx.
+  - destruct Hcfg as (_ & _ & Hnd & _). unfold specials in Hnd. rewrite heads_app in Hnd.
+    revert Hnd. generalize (heads (delims c)). intros l Hnd.
+    induction l as [|a l IH]; [constructor|]. simpl in Hnd. inversion Hnd; subst. constructor.
+    + intro Hin. apply H2. apply in_or_app. left. exact Hin.
+    + apply IH. assumption.
+Qed.
+
+Lemma seg_in : In seg (delims c).
+Proof.
+  destruct Hcfg as (Hs & _). unfold delims. apply filter_In. split; [left; reflexivity|].
+  apply is_empty_false in Hs. fold seg in Hs |- *. rewrite Hs. reflexivity.
+Qed.
+Lemma elem_in : In elem (delims c).
+Proof.
+  destruct Hcfg as (_ & Hs & _). unfold delims. apply filter_In. split; [right; left; reflexivity|].
+  apply is_empty_false in Hs. fold elem in Hs |- *. rewrite Hs. reflexivity.
+Qed.
+Lemma rep_in : rep <> [] -> In rep (delims c).
+Proof.
+  intro Hs. unfold delims. apply filter_In. split; [right; right; left; reflexivity|].
+  apply is_empty_false in Hs. rewrite Hs. reflexivity.
+Qed.
+Lemma comp_in : comp <> [] -> In comp (delims c).
+Proof.
+  intro Hs. unfold delims. apply filter_In. split; [right; right; right; left; reflexivity|].
+  apply is_empty_false in Hs. rewrite Hs. reflexivity.
+Qed.
+
+(* the delimiters in use are pairwise different *)
+Lemma delims_distinct :
+  seg <> elem /\ (rep <> [] -> rep <> seg /\ rep <> elem) /\
+  (comp <> [] -> comp <> seg /\ comp <> elem /\ comp <> rep).
+Proof.
+  pose proof delims_nodup as Hnd. unfold delims in Hnd. fold seg elem rep comp in Hnd.
+  destruct Hcfg as (Hs & He & _). fold seg in Hs. fold elem in He.
+  apply is_empty_false in Hs. apply is_empty_false in He.
+  cbn [filter] in Hnd. rewrite Hs, He in Hnd. cbn [negb] in Hnd.
+  destruct (list_eq_dec Byte.byte_eq_dec rep []) as [Hr|Hr];
+    [rewrite (proj2 (is_empty_true rep) Hr) in Hnd|rewrite (proj2 (is_empty_false rep) Hr) in Hnd];
+    (destruct (list_eq_dec Byte.byte_eq_dec comp []) as [Hc|Hc];
+     [rewrite (proj2 (is_empty_true comp) Hc) in Hnd|rewrite (proj2 (is_empty_false comp) Hc) in Hnd]);
+    cbn [negb] in Hnd.
+  all: repeat match goal with
+              | Hn : NoDup (_ :: _) |- _ => let a := fresh "Hni" in let b := fresh "Hn" in
+                                             inversion Hn as [|? ? a b]; subst; clear Hn
+              end.
+  all: cbn [In] in *.
+  all: split; [intro Heq; rewrite Heq in *; tauto|].
+  all: split; intro Hne; try congruence.
+  all: repeat split; intro Heq; rewrite Heq in *; tauto.
+Qed.
+
+Lemma Pc_sub x : Pc x -> In x (delims c). Proof. auto. Qed.
+Lemma Pr_sub x : Pr x -> In x (delims c). Proof. intros [Hx _]; exact Hx. Qed.
+Lemma Pe_sub x : Pe x -> In x (delims c). Proof. intros [Hx _]; exact Hx. Qed.
+Lemma Ps_sub x : Ps x -> In x (delims c). Proof. intros ->. apply seg_in. Qed.
+
+Definition rep_ok (r : lrep) : Prop :=
+  r <> [] /\ (comp = [] -> length r = 1) /\ Forall data_ok r.
+Definition elem_ok (e : lelem) : Prop :=
+  e <> [] /\ (rep = [] -> length e = 1) /\ Forall rep_ok e.
+
+Lemma map_nonempty {A B} (f : A -> B) l : l <> [] -> map f l <> [].
+Proof. destruct l; [congruence|discriminate]. Qed.
+
+Lemma sealed_rep r : rep_ok r -> sealed Pr (enc_rep c r).
+Proof.
+  intros (Hne & Hone & Hd). unfold enc_rep. fold comp.
+  change (escape (heads (specials c)) (optb (c_rel c))) with E.
+  assert (Hall : Forall (sealed Pr) (map E r)).
+  { apply Forall_forall. intros p Hp. apply in_map_iff in Hp as (d & <- & Hin).
+    apply (sealed_weaken Pc); [apply Pr_sub|]. apply sealed_E. rewrite Forall_forall in Hd. auto. }
+  destruct (list_eq_dec Byte.byte_eq_dec comp []) as [Hc|Hc].
+  - specialize (Hone Hc). destruct r as [|d [|d' r]]; simpl in Hone; try lia.
+    cbn [map join]. inversion Hall; assumption.
+  - apply (sealed_join Pr Pr_sub); [apply comp_in; exact Hc|intros [_ Hn]; congruence|
+                                     apply map_nonempty; exact Hne|exact Hall].
+Qed.
+
+Lemma sealed_elem e : elem_ok e -> sealed Pe (enc_elem c e).
+Proof.
+  intros (Hne & Hone & Hr). unfold enc_elem. fold rep.
+  assert (Hall : Forall (sealed Pe) (map (enc_rep c) e)).
+  { apply Forall_forall. intros p Hp. apply in_map_iff in Hp as (r & <- & Hin).
+    apply (sealed_weaken Pr); [intros x (Hx & Hxc & _); split; assumption|].
+    apply sealed_rep. rewrite Forall_forall in Hr. auto. }
+  destruct (list_eq_dec Byte.byte_eq_dec rep []) as [Hc|Hc].
+  - specialize (Hone Hc). destruct e as [|d [|d' e]]; simpl in Hone; try lia.
+    cbn [map join]. inversion Hall; assumption.
+  - apply (sealed_join Pe Pe_sub); [apply rep_in; exact Hc|intros (_ & _ & Hn); congruence|
+                                     apply map_nonempty; exact Hne|exact Hall].
+Qed.
+
+Lemma Ps_Pe x : Ps x -> Pe x.
+Proof.
+  intros ->. destruct delims_distinct as (_ & Hr & Hc). split; [apply seg_in|]. split.
+  - intro Heq. destruct (list_eq_dec Byte.byte_eq_dec comp []) as [Hce|Hce].
+    + destruct Hcfg as (Hs & _). fold seg in Hs. congruence.
+    + destruct (Hc Hce) as (Hn & _). congruence.
+  - intro Heq. destruct (list_eq_dec Byte.byte_eq_dec rep []) as [Hre|Hre].
+    + destruct Hcfg as (Hs & _). fold seg in Hs. congruence.
+    + destruct (Hr Hre) as (Hn & _). congruence.
+Qed.
+
+Lemma sealed_seg s : s <> [] -> Forall elem_ok s -> sealed Ps (enc_seg c s).
+Proof.
+  intros Hne He. unfold enc_seg. fold elem.
+  apply (sealed_join Ps Ps_sub); [apply elem_in| |apply map_nonempty; exact Hne|].
+  - unfold Ps. destruct delims_distinct as (Hn & _). congruence.
+  - apply Forall_forall. intros p Hp. apply in_map_iff in Hp as (e & <- & Hin).
+    apply (sealed_weaken Pe); [apply Ps_Pe|]. apply sealed_elem. rewrite Forall_forall in He. auto.
+Qed.
+
+(* ---- readToken on an encoded segment ------------------------------------------------------------------ *)
+Lemma vals_to_elems_enc i e : Forall rep_ok e ->
+  vals_to_elems c i (map (enc_rep c) e) = Ok (flat_map (exp_rep c i) e).
+Proof.
+  induction e as [|r e IH]; intro Hall; [reflexivity|].
+  inversion Hall as [|? ? Hr He]; subst. cbn [map vals_to_elems flat_map]. fold comp.
+  destruct Hr as (Hne & Hone & Hd).
+  assert (Hhere : (if is_empty comp then Ok [mkRE i 1 (enc_rep c r)]
+                   else bind (split_with_esc (enc_rep c r) comp (optb (c_rel c)))
+                             (fun cs => Ok (comps_of i 0 cs))) = Ok (exp_rep c i r)).
+  { destruct (is_empty comp) eqn:Ec.
+    - apply is_empty_true in Ec. specialize (Hone Ec).
+      destruct r as [|d [|d' r]]; simpl in Hone; try lia. unfold enc_rep, exp_rep. reflexivity.
+    - apply is_empty_false in Ec. unfold enc_rep at 1. fold comp.
+      change (escape (heads (specials c)) (optb (c_rel c))) with E. fold esc.
+      rewrite (split_sealed Pc Pc_sub comp (map E r)).
+      + reflexivity.
+      + apply comp_in. exact Ec.
+      + apply map_nonempty. exact Hne.
+      + apply Forall_forall. intros p Hp. apply in_map_iff in Hp as (d & <- & Hin).
+        apply sealed_E. rewrite Forall_forall in Hd. auto. }
+  rewrite Hhere. cbn [bind]. rewrite IH by exact He. reflexivity.
+Qed.
+
+Lemma elems_to_raw_enc s : Forall elem_ok s -> forall i,
+  elems_to_raw c i (map (enc_elem c) s) = Ok (exp_elems c i s).
+Proof.
+  induction s as [|e s IH]; intros Hall i; [reflexivity|].
+  inversion Hall as [|? ? He Hs]; subst. cbn [map elems_to_raw exp_elems]. fold rep.
+  destruct He as (Hne & Hone & Hr).
+  assert (Hvals : (if is_empty rep then Ok [enc_elem c e]
+                   else split_with_esc (enc_elem c e) rep (optb (c_rel c))) = Ok (map (enc_rep c) e)).
+  { destruct (is_empty rep) eqn:Ec.
+    - apply is_empty_true in Ec. specialize (Hone Ec).
+      destruct e as [|r [|r' e]]; simpl in Hone; try lia. reflexivity.
+    - apply is_empty_false in Ec. unfold enc_elem. fold rep esc.
+      apply (split_sealed Pr Pr_sub rep (map (enc_rep c) e)).
+      + split; [apply rep_in; exact Ec|].
+        destruct (list_eq_dec Byte.byte_eq_dec comp []) as [Hce|Hce]; [congruence|].
+        destruct delims_distinct as (_ & _ & Hc). destruct (Hc Hce) as (_ & _ & Hn). congruence.
+      + apply map_nonempty. exact Hne.
+      + apply Forall_forall. intros p Hp. apply in_map_iff in Hp as (r & <- & Hin).
+        apply sealed_rep. rewrite Forall_forall in Hr. auto. }
+  rewrite Hvals. cbn [bind]. rewrite vals_to_elems_enc by exact Hr. cbn [bind].
+  rewrite IH by exact Hs. reflexivity.
+Qed.
 End RT.
